@@ -366,6 +366,7 @@ class Index:
         self._mro = {}
         self._inline_delegating_methods()
         self._inline_generators()
+        self._inline_straightline_helpers()
 
     def _inline_delegating_methods(self):
         """A method whose whole body is `return _helper(self, a, b)` / `_helper(self, a, b)` -- a private module-level function of
@@ -497,6 +498,80 @@ class Index:
         binds = [ast.copy_location(ast.Assign(targets=[ast.Name(id=ren[p_], ctx=ast.Store())], value=a), st) for p_, a in zip(g.params, call.args)
                  if not (isinstance(a, ast.Name) and a.id == ren[p_])]
         return binds + splice(body)
+
+    def _inline_straightline_helpers(self):
+        """`x, y = _helper(data)` / `return _helper(a)` / `_helper(a)` where `_helper` is a private module-level function of the same
+        module whose body is a straight line of assignments ending in `return <expr>`, called with plain names / constants: the
+        statement is replaced by the helper's assignments (locals renamed apart, parameters replaced by the arguments) followed by
+        the statement with the call replaced by the returned expression.  Beta-reduction; nothing is evaluated twice or in another
+        order."""
+        for m in self.mods.values():
+            funcs = list(m.funcs.values()) + [fn for c in m.classes.values() for fn in c.methods.values()]
+            for fn in funcs:
+                changed = False
+                for parent in ast.walk(fn.node):
+                    for field in ('body', 'orelse', 'finalbody'):
+                        stmts = getattr(parent, field, None)
+                        if not isinstance(stmts, list) or not stmts or not isinstance(stmts[0], ast.stmt):
+                            continue
+                        out = []
+                        for st in stmts:
+                            rep = self._straightline_one(m, fn, st)
+                            if rep is None:
+                                out.append(st)
+                            else:
+                                out.extend(rep)
+                                changed = True
+                        setattr(parent, field, out)
+                if changed:
+                    ast.fix_missing_locations(fn.node)
+                    set_parents(fn.node)
+
+    def _straightline_one(self, m, fn, st):
+        if not isinstance(st, (ast.Assign, ast.Return, ast.Expr)) or not isinstance(getattr(st, 'value', None), ast.Call):
+            return None
+        call = st.value
+        if not (isinstance(call.func, ast.Name) and call.func.id.startswith('_') and not call.func.id.startswith('__') and call.func.id in m.funcs) or call.keywords:
+            return None
+        g = m.funcs[call.func.id]
+        if g is fn or g.is_async or g.node.decorator_list or g.node.args.vararg or g.node.args.kwarg or g.node.args.kwonlyargs or g.node.args.defaults \
+                or len(call.args) != len(g.params) or not all(isinstance(a, (ast.Name, ast.Constant)) for a in call.args):
+            return None
+        gbody = [x for x in g.node.body if not (isinstance(x, ast.Expr) and isinstance(x.value, ast.Constant))]
+        if not gbody or not isinstance(gbody[-1], ast.Return) or gbody[-1].value is None or not all(isinstance(x, ast.Assign) for x in gbody[:-1]):
+            return None
+        if any(isinstance(n, (ast.Yield, ast.YieldFrom, ast.Lambda, ast.Await, ast.NamedExpr, ast.ListComp, ast.SetComp, ast.DictComp, ast.GeneratorExp)) for x in gbody for n in ast.walk(x)):
+            return None
+        gstores = {n.id for x in gbody for n in ast.walk(x) if isinstance(n, ast.Name) and isinstance(n.ctx, ast.Store)}
+        if gstores & set(g.params):
+            return None
+        if isinstance(st, ast.Expr) and len(gbody) == 1:
+            return None                 # nothing to gain: the call stays
+        used = {n.id for n in ast.walk(fn.node) if isinstance(n, ast.Name)} | set(fn.params)
+        ren = {}
+        for v in gstores:
+            ren[v] = v if v not in used else '%s__%s' % (v, g.name.strip('_'))
+            if ren[v] != v and ren[v] in used:
+                return None
+        sub = {}
+        for p_, a in zip(g.params, call.args):
+            sub[p_] = a
+
+        class R(ast.NodeTransformer):
+            def visit_Name(self, n):
+                if n.id in sub:
+                    a = sub[n.id]
+                    return ast.copy_location(ast.Name(id=a.id, ctx=n.ctx) if isinstance(a, ast.Name) else ast.Constant(value=a.value), n)
+                if n.id in ren:
+                    return ast.copy_location(ast.Name(id=ren[n.id], ctx=n.ctx), n)
+                return n
+        body = [ast.copy_location(R().visit(x), st) for x in clone(gbody)]
+        for x in body:
+            for n in ast.walk(x):
+                ast.copy_location(n, st)
+        ret = body[-1].value
+        st.value = ret
+        return body[:-1] + [st]
 
     # ------------------------------------------------------------------ scan
     def _scan(self, m):
